@@ -882,3 +882,638 @@ Lemma h_add_class_creator_meq e s a c s' r evs : h_add_class_creator e s a c = L
 Proof. unfold h_add_class_creator. intros Hh. lstep Hh as u Hu. lstep Hh as u2 Hu2. apply ret_inv in Hh. subst s'. reflexivity. Qed.
 Lemma h_remove_class_creator_meq e s a c s' r evs : h_remove_class_creator e s a c = LOk (s', r, evs) -> meq s s'.
 Proof. unfold h_remove_class_creator. intros Hh. lstep Hh as u Hu. lstep Hh as u2 Hu2. apply ret_inv in Hh. subst s'. reflexivity. Qed.
+
+(* ------------------------------------------------------------------ *)
+(* (2) basket module                                                   *)
+(* ------------------------------------------------------------------ *)
+
+(* (c) date criteria: the message check is the state check *)
+Lemma vb_date_criteria_valid c : vb_date_criteria c = true -> valid_date_criteria c = true.
+Proof.
+  destruct c as [|t|ds dn|n]; cbn; try reflexivity; intros Hv; apply negb_true_iff; apply Z.ltb_ge; apply Z.leb_le in Hv;
+    [change LedgerConsts.date_criteria_min_start_seconds with (-2208992400) in Hv
+    |change LedgerConsts.date_criteria_min_window_seconds with 86400 in Hv]; lia.
+Qed.
+
+Lemma set_basket_classes_twice s x y : s <| basket_classes := x |> <| basket_classes := y |> = s <| basket_classes := y |>.
+Proof. destruct s; reflexivity. Qed.
+
+Lemma index_allowed_classes_spec id ct l : forall s s', index_allowed_classes id ct l s = LOk s' ->
+  exists kc, s' = s <| basket_classes := kc |> /\ (forall x, x ∈ kc -> x ∈ basket_classes s \/ (x.1 = id /\ In x.2 l)).
+Proof.
+  induction l as [|c l IH]; intros s s' Hh; cbn in Hh.
+  - inversion Hh; subst. exists (basket_classes s'). split; [destruct s'; reflexivity|]. intros x Hx. left. exact Hx.
+  - lstep Hh as kc Hkc. destruct kc as [k cl]. lstep Hh as u Hu. destruct (bool_decide _); [discriminate|].
+    apply IH in Hh. destruct Hh as (kc & -> & Hkc'). exists kc. split; [apply set_basket_classes_twice|].
+    intros x Hx. destruct (Hkc' x Hx) as [Ho|[Ho1 Ho2]]; [|right; split; [exact Ho1|right; exact Ho2]].
+    cbn in Ho. apply elem_of_union in Ho. destruct Ho as [Ho|Ho]; [|left; exact Ho].
+    apply elem_of_singleton in Ho. subst x. right. split; [reflexivity|left; reflexivity].
+Qed.
+
+(* (g) basket Create: the denom is a format_basket_denom output, hence valid by IdsProps.basket_denom_valid *)
+Lemma h_basket_create_MV d e s curator name dar ct allowed criteria fee s' r evs :
+  MV d s -> validate_basket_name name = true -> validate_credit_type_abbrev ct = true ->
+  Forall (fun c => validate_class_id c = true) allowed -> vb_date_criteria criteria = true ->
+  h_basket_create e s curator name dar ct allowed criteria fee = LOk (s', r, evs) -> MV d s'.
+Proof.
+  intros Hmv Hn Hct Hal Hcr. unfold h_basket_create. intros Hh.
+  lstep Hh as s1 H1. lstep Hh as cty Hcty. lstep Hh as dd Hdd. destruct dd as [denom dden]. lstep Hh as u Hu.
+  cbv zeta in Hh. lstep Hh as s2 H2. apply ret_inv in Hh. subst s'.
+  apply charge_fee_meq in H1. apply (meq_MV d _ _ H1) in Hmv. clear H1 s.
+  assert (Hden : validate_basket_denom denom = true).
+  { unfold format_basket_denom in Hdd. destruct (exponent_to_prefix (Z.to_N (ct_precision cty))) as [p|] eqn:Ep; [|discriminate].
+    destruct (basket_denom_valid name ct _ p Hn Hct Ep) as (x & y & Ef & Hx & _).
+    unfold format_basket_denom in Ef. rewrite Ep in Ef. congruence. }
+  apply index_allowed_classes_spec in H2. destruct H2 as (kc & -> & Hkc).
+  assert (Hb : MV d (s1 <| baskets := <[(basket_seq_id s1 + 1)%N := {| bk_denom := denom; bk_name := name; bk_disable_auto_retire := dar;
+                     bk_ct := ct; bk_criteria := criteria; bk_exponent := ct_precision cty; bk_curator := curator |}]> (baskets s1) |>
+                     <| basket_seq_id := (basket_seq_id s1 + 1)%N |>)).
+  { mv_updates Hmv. apply fa_insert; [|assumption]. unfold valid_basket. cbn.
+    rewrite nz_succ, Hden, Hn, Hct, (vb_date_criteria_valid _ Hcr). reflexivity. }
+  mv_updates Hb. intros x Hx. destruct (Hkc x Hx) as [Ho|[Ho1 Ho2]]; [auto|].
+  unfold valid_basket_class. rewrite Ho1, nz_succ. cbn. rewrite Forall_forall in Hal. apply Hal. exact Ho2.
+Qed.
+
+Lemma valid_basket_same k v v' : bk_denom v' = bk_denom v -> bk_name v' = bk_name v -> bk_ct v' = bk_ct v ->
+  valid_date_criteria (bk_criteria v') = true -> valid_basket k v = true -> valid_basket k v' = true.
+Proof.
+  intros E1 E2 E3 Hc Hv. unfold valid_basket in *. rewrite E1, E2, E3, Hc. bdestr Hv. rewrite Hv, Hv2, Hv3, Hv4. reflexivity.
+Qed.
+Lemma valid_basket_criteria k v : valid_basket k v = true -> valid_date_criteria (bk_criteria v) = true.
+Proof. unfold valid_basket. intros Hv. bdestr Hv. assumption. Qed.
+
+Lemma h_update_curator_MV d e s curator denom new_curator s' r evs :
+  MV d s -> h_update_curator e s curator denom new_curator = LOk (s', r, evs) -> MV d s'.
+Proof.
+  intros Hmv. unfold h_update_curator. intros Hh. lstep Hh as ik Hik. destruct ik as [id k]. lstep Hh as u Hu.
+  apply ret_inv in Hh. subst s'. apply basket_by_denom_Some in Hik. destruct Hik as [Hk _].
+  pose proof (mv_bk d s Hmv _ _ Hk) as Hv. unfold set_basket. mv_updates Hmv.
+  apply fa_insert; [|assumption]. eapply valid_basket_same; [..|exact Hv]; try reflexivity. cbn. eapply valid_basket_criteria. exact Hv.
+Qed.
+
+Lemma h_update_date_criteria_MV d e s a denom criteria s' r evs :
+  MV d s -> vb_date_criteria criteria = true ->
+  h_update_date_criteria e s a denom criteria = LOk (s', r, evs) -> MV d s'.
+Proof.
+  intros Hmv Hc. unfold h_update_date_criteria. intros Hh. lstep Hh as u Hu. lstep Hh as ik Hik. destruct ik as [id k].
+  apply ret_inv in Hh. subst s'. apply basket_by_denom_Some in Hik. destruct Hik as [Hk _].
+  pose proof (mv_bk d s Hmv _ _ Hk) as Hv. unfold set_basket. mv_updates Hmv.
+  apply fa_insert; [|assumption]. eapply valid_basket_same; [..|exact Hv]; try reflexivity. cbn. apply vb_date_criteria_valid. exact Hc.
+Qed.
+
+(* ------------------------------------------------------------------ *)
+(* (2) marketplace module                                              *)
+(* ------------------------------------------------------------------ *)
+
+Lemma escrow_credits_meq a bk q s s' : escrow_credits a bk q s = LOk s' -> meq s s'.
+Proof. unfold escrow_credits. intros Hh. linv Hh. meq_chain. Qed.
+Lemma unescrow_credits_meq a bk q s s' : unescrow_credits a bk q s = LOk s' -> meq s s'.
+Proof. unfold unescrow_credits. intros Hh. linv Hh. meq_chain. Qed.
+
+Lemma credit_type_abbrev_valid d s denom ab ct : MV d s ->
+  credit_type_abbrev_of_denom s denom = LOk (ab, ct) -> validate_credit_type_abbrev ab = true.
+Proof.
+  intros Hmv. unfold credit_type_abbrev_of_denom. intros Hh. cbv zeta in Hh. lstep Hh as kc Hkc. destruct kc as [k c].
+  lstep Hh as cty Hcty. inversion Hh; subst. apply class_by_id_Some in Hkc. destruct Hkc as [Hc _].
+  pose proof (mv_cl d s Hmv _ _ Hc) as Hv. unfold valid_class in Hv. bdestr Hv. assumption.
+Qed.
+
+(* getOrCreateMarketID: the market id is non-zero and the market row (if new) is valid *)
+Lemma get_or_create_market_MV d ab dn s s1 id : MV d s ->
+  validate_credit_type_abbrev ab = true -> valid_denom dn = true ->
+  get_or_create_market ab dn s = (s1, id) -> MV d s1 /\ nz id = true /\ sell_orders s1 = sell_orders s.
+Proof.
+  intros Hmv Hab Hdn. unfold get_or_create_market.
+  destruct (map_find _ (markets s)) as [[k m]|] eqn:Ef; intros Hg; inversion Hg; subst.
+  - split; [exact Hmv|]. split; [|reflexivity]. apply map_find_Some in Ef. destruct Ef as [Hk _].
+    pose proof (mv_mk d s1 Hmv _ _ Hk) as Hv. unfold valid_market in Hv. bdestr Hv. assumption.
+  - split; [|split; [apply nz_succ|reflexivity]]. mv_updates Hmv. apply fa_insert; [|assumption].
+    unfold valid_market. cbn. rewrite nz_succ, Hab, Hdn, (valid_denom_nonempty _ Hdn). reflexivity.
+Qed.
+
+Lemma vb_price_inv p : vb_price p = true -> exists c, p = Some c /\ valid_denom (c_denom c) = true /\ 0 < c_amount c.
+Proof.
+  destruct p as [c|]; [|discriminate]. cbn. intros Hv. bdestr Hv. exists c. split; [reflexivity|]. split; [assumption|].
+  apply Z.ltb_lt. assumption.
+Qed.
+
+Lemma batch_key_nz d s bk ba : MV d s -> batches s !! bk = Some ba -> nz bk = true.
+Proof. intros Hmv Hb. destruct (vbd_nz _ _ _ (mv_ba d s Hmv _ _ Hb)) as [Hn _]. exact Hn. Qed.
+
+(* (f) Sell: keys non-zero, ask amount positive *)
+Lemma sell_one_MV d e seller acc o acc' : MV d acc.1 -> vb_sell_req o = true ->
+  sell_one e seller acc o = LOk acc' -> MV d acc'.1.
+Proof.
+  destruct acc as [s ids]. cbn [fst]. intros Hmv Hv. unfold sell_one. intros Hh.
+  lstep Hh as kb Hkb. destruct kb as [bk ba]. lstep Hh as ac Hac. destruct ac as [ab ct]. lstep Hh as ask Hask.
+  unfold vb_sell_req in Hv. bdestr Hv. destruct (vb_price_inv _ Hv0) as (c & Ec & Hcd & Hca). rewrite Ec in Hask. inversion Hask; subst ask.
+  destruct (get_or_create_market ab (c_denom c) s) as [s1 mid] eqn:Eg.
+  lstep Hh as u Hu. lstep Hh as q Hq. lstep Hh as s2 H2. lstep Hh as u2 Hu2. inversion Hh; subst. cbn [fst].
+  apply batch_by_denom_Some in Hkb. destruct Hkb as [Hba _].
+  pose proof (batch_key_nz d s _ _ Hmv Hba) as Hbk.
+  destruct (get_or_create_market_MV d ab (c_denom c) s s1 mid Hmv (credit_type_abbrev_valid d s _ _ _ Hmv Hac) Hcd Eg) as (Hm1 & Hmid & _).
+  apply escrow_credits_meq in H2. apply (meq_MV d _ _ H2) in Hm1.
+  mv_updates Hm1. apply fa_insert; [|assumption]. unfold so_struct_ok. cbn.
+  rewrite nz_succ, Hbk, Hmid. cbn. apply Z.leb_le. lia.
+Qed.
+
+Lemma h_sell_MV d e s seller orders s' r evs : MV d s -> forallb vb_sell_req orders = true ->
+  h_sell e s seller orders = LOk (s', r, evs) -> MV d s'.
+Proof.
+  intros Hmv Hv. unfold h_sell. intros Hh. lstep Hh as acc Hacc. destruct acc as [s1 ids]. apply ret_inv in Hh. subst s'.
+  assert (L : forall a x a', vb_sell_req x = true -> MV d a.1 -> sell_one e seller a x = LOk a' -> MV d a'.1)
+    by (intros a x a' Hx Ha Hf; eapply sell_one_MV; eassumption).
+  exact (lfold_pred (fun o => vb_sell_req o = true) (fun a : state * list N => MV d a.1) (sell_one e seller) L
+           orders (s, []) (s1, ids) (forallb_Forall _ _ Hv) Hmv Hacc).
+Qed.
+
+Lemma so_struct_same k o o' : so_batch_key o' = so_batch_key o -> nz (so_market_id o') = true -> 0 <= so_ask_amount o' ->
+  so_struct_ok k o = true -> so_struct_ok k o' = true.
+Proof.
+  intros E1 Hm Ha Hv. unfold so_struct_ok in *. rewrite E1, Hm. bdestr Hv. rewrite Hv, Hv2. cbn. apply Z.leb_le. exact Ha.
+Qed.
+
+Lemma so_struct_inv k o : so_struct_ok k o = true -> nz (so_market_id o) = true /\ 0 <= so_ask_amount o.
+Proof. unfold so_struct_ok. intros Hv. bdestr Hv. split; [assumption|apply Z.leb_le; assumption]. Qed.
+
+Lemma update_one_MV d e seller s u s' : MV d s -> vb_update_req u = true ->
+  update_one e seller s u = LOk s' -> MV d s'.
+Proof.
+  intros Hmv Hv. unfold update_one. intros Hh.
+  lstep Hh as o Ho. lstep Hh as u1 Hu1. lstep Hh as ba Hba. lstep Hh as ac Hac. destruct ac as [ab ct].
+  lstep Hh as tr Htr. destruct tr as [[s1 mid] askz]. lstep Hh as ex Hex. lstep Hh as sq Hsq. destruct sq as [s2 qty].
+  lstep Hh as m Hm. inversion Hh; subst. apply orm_update_ok in Hm. destruct Hm as [-> _].
+  destruct (so_struct_inv _ _ (mv_so d s Hmv _ _ Ho)) as [Hmk0 Hask0].
+  pose proof (mv_so d s Hmv _ _ Ho) as Hso.
+  (* the price block *)
+  assert (H1 : MV d s1 /\ nz mid = true /\ 0 <= askz /\ sell_orders s1 = sell_orders s).
+  { unfold vb_update_req in Hv. bdestr Hv. destruct (vb_price_inv _ Hv0) as (c & Ec & Hcd & Hca). rewrite Ec in Htr.
+    lstep Htr as mk Hmk. lstep Htr as u2 Hu2. destruct (bytes_eqb (mk_denom mk) (c_denom c)).
+    - inversion Htr; subst. split; [assumption|]. split; [assumption|]. split; [lia|reflexivity].
+    - destruct (get_or_create_market ab (c_denom c) s) as [s1' id'] eqn:Eg. inversion Htr; subst.
+      destruct (get_or_create_market_MV d ab (c_denom c) s s1 mid Hmv (credit_type_abbrev_valid d s _ _ _ Hmv Hac) Hcd Eg) as (A & B & C).
+      split; [assumption|]. split; [assumption|]. split; [lia|assumption]. }
+  destruct H1 as (Hm1 & Hmid & Haz & Eso).
+  (* the quantity block only moves escrow *)
+  assert (H2 : meq s1 s2).
+  { destruct (up_quantity u); [inversion Hsq; subst; apply meq_refl|].
+    lstep Hsq as nq Hnq. lstep Hsq as cq Hcq. destruct (cmp nq cq).
+    - inversion Hsq; subst. apply meq_refl.
+    - lstep Hsq as df Hdf. lstep Hsq as s3 H3. inversion Hsq; subst. eapply unescrow_credits_meq. exact H3.
+    - lstep Hsq as df Hdf. lstep Hsq as s3 H3. inversion Hsq; subst. eapply escrow_credits_meq. exact H3. }
+  apply (meq_MV d _ _ H2) in Hm1.
+  mv_updates Hm1. apply fa_insert; [|assumption].
+  eapply so_struct_same; [..|exact Hso]; cbn; try reflexivity; assumption.
+Qed.
+
+Lemma h_update_sell_orders_MV d e s seller updates s' r evs : MV d s -> forallb vb_update_req updates = true ->
+  h_update_sell_orders e s seller updates = LOk (s', r, evs) -> MV d s'.
+Proof.
+  intros Hmv Hv. unfold h_update_sell_orders. intros Hh. lstep Hh as s1 H1. apply ret_inv in Hh. subst s'.
+  eapply (lfold_pred (fun u => vb_update_req u = true) (MV d)); [| apply forallb_Forall; exact Hv | exact Hmv | exact H1].
+  intros a x a' Hx Ha Hf. eapply update_one_MV; eassumption.
+Qed.
+
+Lemma h_cancel_sell_order_MV d e s seller id s' r evs : MV d s -> h_cancel_sell_order e s seller id = LOk (s', r, evs) -> MV d s'.
+Proof.
+  intros Hmv. unfold h_cancel_sell_order. intros Hh. lstep Hh as o Ho. lstep Hh as u Hu. lstep Hh as s1 H1.
+  apply ret_inv in Hh. subst s'. apply unescrow_credits_meq in H1. apply (meq_MV d _ _ H1) in Hmv.
+  mv_updates Hmv. apply fa_delete. assumption.
+Qed.
+
+(* BuyDirect: an order is deleted, or rewritten with a smaller quantity and the same keys and price *)
+Lemma fill_order_MV d id o buyer q bf st ar dn s s' : MV d s -> sell_orders s !! id = Some o ->
+  fill_order id o buyer q bf st ar dn s = LOk s' -> MV d s'.
+Proof.
+  intros Hmv Ho. unfold fill_order. intros Hh. lstep Hh as oq Hoq. lstep Hh as s1 H1.
+  pose proof (mv_so d s Hmv _ _ Ho) as Hso.
+  assert (Hm1 : MV d s1).
+  { destruct (cmp oq q); [| discriminate |].
+    - inversion H1; subst. mv_updates Hmv. apply fa_delete. assumption.
+    - lstep H1 as nq Hnq. lstep H1 as m Hm. inversion H1; subst. apply orm_update_ok in Hm. destruct Hm as [-> _].
+      destruct (so_struct_inv _ _ Hso) as [A B].
+      mv_updates Hmv. apply fa_insert; [|assumption]. eapply so_struct_same; [..|exact Hso]; cbn; try reflexivity; assumption. }
+  clear Hmv. lstep Hh as sb Hsb. lstep Hh as ne Hne. lstep Hh as s2 H2.
+  apply update_balance_meq in H2. apply (meq_MV d _ _ H2) in Hm1. clear H2.
+  cbv zeta in Hh. lstep Hh as s3 H3.
+  assert (Hm3 : MV d s3).
+  { destruct (negb ar).
+    - lstep H3 as nt Hnt. inversion H3; subst. eapply meq_MV; [|exact Hm1]. reflexivity.
+    - lstep H3 as nr Hnr. lstep H3 as su Hsu. lstep H3 as stt Hst. lstep H3 as sr Hsr. lstep H3 as s4 H4.
+      inversion H3; subst. apply update_supply_meq in H4. eapply meq_MV; [|exact Hm1]. unfold meq in *. autorewrite with mt. exact H4. }
+  clear Hm1. lstep Hh as rate Hrate. lstep Hh as sf Hsf. lstep Hh as tf Htf. lstep Hh as s4 H4.
+  assert (Hm4 : MV d s4).
+  { destruct (is_positive tf); [|inversion H4; subst; exact Hm3].
+    lstep H4 as am Ham. lstep H4 as cs Hcs. lstep H4 as s5 H5. apply send_coins_meq in H5. apply (meq_MV d _ _ H5) in Hm3.
+    destruct (bytes_eqb dn uregen); [|inversion H4; subst; exact Hm3].
+    apply burn_coins_meq in H4. eapply meq_MV; eassumption. }
+  lstep Hh as pm Hpm. lstep Hh as pay Hpay. lstep Hh as cs Hcs. apply send_coins_meq in Hh. eapply meq_MV; eassumption.
+Qed.
+
+Lemma buy_one_MV d e buyer s rq s' : MV d s -> buy_one e buyer s rq = LOk s' -> MV d s'.
+Proof.
+  intros Hmv. unfold buy_one. intros Hh. lstep Hh as o Ho.
+  repeat match type of Hh with
+         | lbind _ _ = LOk _ => let x := fresh "x" in let Hx := fresh "Hx" in apply lbind_ok in Hh; destruct Hh as (x & Hx & Hh)
+         end.
+  eapply fill_order_MV; eassumption.
+Qed.
+
+Lemma h_buy_direct_MV d e s buyer orders s' r evs : MV d s -> h_buy_direct e s buyer orders = LOk (s', r, evs) -> MV d s'.
+Proof.
+  intros Hmv. unfold h_buy_direct. intros Hh. lstep Hh as s1 H1. apply ret_inv in Hh. subst s'.
+  eapply (lfold_pred (fun _ => True) (MV d)); [| apply Forall_forall; intros; exact I | exact Hmv | exact H1].
+  intros a x a' _ Ha Hf. eapply buy_one_MV; eassumption.
+Qed.
+
+Lemma h_add_allowed_denom_MV d e s a bank_denom display_denom exponent s' r evs :
+  MV d s -> valid_denom bank_denom = true -> valid_denom display_denom = true ->
+  (match exponent_to_prefix (Z.to_N exponent) with Some _ => true | None => false end) = true ->
+  h_add_allowed_denom e s a bank_denom display_denom exponent = LOk (s', r, evs) -> MV d s'.
+Proof.
+  intros Hmv H1 H2 H3. unfold h_add_allowed_denom. intros Hh. lstep Hh as u Hu. lstep Hh as u2 Hu2. lstep Hh as u3 Hu3.
+  apply ret_inv in Hh. subst s'. mv_updates Hmv. apply fa_insert; [|assumption].
+  unfold valid_allowed_denom. cbn [fst snd]. rewrite H1, H2, H3, (valid_denom_nonempty _ H1), (valid_denom_nonempty _ H2). reflexivity.
+Qed.
+
+Lemma h_remove_allowed_denom_MV d e s a denom s' r evs :
+  MV d s -> h_remove_allowed_denom e s a denom = LOk (s', r, evs) -> MV d s'.
+Proof.
+  intros Hmv. unfold h_remove_allowed_denom. intros Hh. lstep Hh as u Hu. lstep Hh as u2 Hu2.
+  apply ret_inv in Hh. subst s'. mv_updates Hmv. apply fa_delete. assumption.
+Qed.
+
+Lemma h_gov_set_fee_params_meq e s a fees s' r evs : h_gov_set_fee_params e s a fees = LOk (s', r, evs) -> meq s s'.
+Proof. unfold h_gov_set_fee_params. intros Hh. lstep Hh as u Hu. lstep Hh as fp Hfp. apply ret_inv in Hh. subst s'. reflexivity. Qed.
+
+Lemma h_gov_send_from_fee_pool_meq e s a rc coins s' r evs : h_gov_send_from_fee_pool e s a rc coins = LOk (s', r, evs) -> meq s s'.
+Proof. unfold h_gov_send_from_fee_pool. intros Hh. lstep Hh as u Hu. lstep Hh as s1 H1. apply ret_inv in Hh. subst s'. eapply send_m2a_meq. exact H1. Qed.
+
+(* (h) fee params: FeeParams.Validate (which ValidateGenesis never calls) accepts what GovSetFeeParams stores *)
+Theorem gov_set_fee_params_valid e s a fees s' r evs :
+  validate_basic (MGovSetFeeParams a fees) = true ->
+  handle e s (MGovSetFeeParams a fees) = LOk (s', r, evs) -> fee_params_ok s' = true.
+Proof.
+  cbn [validate_basic handle]. intros Hv. unfold h_gov_set_fee_params. intros Hh. lstep Hh as u Hu. lstep Hh as fp Hfp.
+  apply ret_inv in Hh. subst s' fees. unfold fee_params_ok. cbn. exact Hv.
+Qed.
+
+(* BeginBlock: expired orders are un-escrowed and deleted *)
+Lemma fold_delete_sub {V} (l : list (N * V)) : forall (m : gmap N V) k v,
+  fold_left (fun m kv => delete kv.1 m) l m !! k = Some v -> m !! k = Some v.
+Proof.
+  induction l as [|x l IH]; intros m k v Hl; cbn in Hl; [exact Hl|].
+  apply IH in Hl. apply lookup_delete_Some in Hl. tauto.
+Qed.
+
+Lemma begin_block_MV d t s s' : MV d s -> begin_block t s = LOk s' -> MV d s'.
+Proof.
+  intros Hmv. unfold begin_block, prune_sell_orders. intros Hh. cbv zeta in Hh. lstep Hh as s1 H1. inversion Hh; subst.
+  assert (M : meq s s1).
+  { eapply lfold_meq; [|exact H1]. intros a x a' Hf. eapply unescrow_credits_meq. exact Hf. }
+  apply (meq_MV d _ _ M) in Hmv. mv_updates Hmv. intros k v Hk. apply fold_delete_sub in Hk.
+  replace (sell_orders s) with (sell_orders s1) in Hk; [auto|]. unfold meq, mtuple in M. congruence.
+Qed.
+
+(* BridgeReceive = (CreateProject)? ; CreateBatch, or MintBatchCredits into the batch of the contract *)
+Lemma h_bridge_receive_MV d e s issuer class_id pjr bar otx s' r evs :
+  MV d s ->
+  (forall o, otx = Some o -> vb_origin_tx o = true) ->
+  (forall pp, pjr = Some pp -> len_le (brp_metadata pp) max_metadata_length = true /\ validate_jurisdiction (brp_jurisdiction pp) = true) ->
+  (forall bb, bar = Some bb -> len_le (brb_metadata bb) max_metadata_length = true /\ dates_ok d (brb_start bb) (brb_end bb)) ->
+  h_bridge_receive e s issuer class_id pjr bar otx = LOk (s', r, evs) -> MV d s'.
+Proof.
+  intros Hmv Ho Hp Hb. unfold h_bridge_receive. intros Hh.
+  lstep Hh as o Eo. lstep Hh as bb Eb. lstep Hh as pp Ep. lstep Hh as u Hu. lstep Hh as kc Hkc. destruct kc as [ck cl].
+  specialize (Ho o Eo). destruct (Hp pp Ep) as [Hpm Hpj]. destruct (Hb bb Eb) as [Hbm Hbd]. cbv zeta in Hh.
+  destruct (map_find _ (batch_contracts s)) as [[bk bc]|].
+  - lstep Hh as ba Hba. lstep Hh as pj Hpjr. lstep Hh as x Hx. destruct x as [[s1 r1] ev1]. inversion Hh; subst.
+    eapply h_mint_MV; [exact Hmv | | exact Hx]. exact Ho.
+  - lstep Hh as sp Hsp. destruct sp as [s1 project_id]. lstep Hh as x Hx. destruct x as [[s2 r2] ev2].
+    assert (Hm1 : MV d s1).
+    { destruct (map_find _ (projects s)) as [[k0 pj0]|]; [inversion Hsp; subst; exact Hmv|].
+      lstep Hsp as y Hy. destruct y as [[s3 r3] ev3]. destruct r3; try discriminate. inversion Hsp; subst.
+      eapply h_create_project_MV; [exact Hmv | exact Hpm | exact Hpj | exact Hy]. }
+    destruct r2; try discriminate. inversion Hh; subst.
+    eapply h_create_batch_MV; [exact Hm1 | exact Hbm | exact Hbd | | exact Hx]. exact Ho.
+Qed.
+
+(* ------------------------------------------------------------------ *)
+(* (2) the dispatcher: every message                                   *)
+(* ------------------------------------------------------------------ *)
+
+(* the side condition on the dates of the two batch-creating messages (see [dates_ok]); vacuous for
+   every other message *)
+Definition msg_dates_ok (d : bool) (m : msg) : Prop :=
+  match m with
+  | MCreateBatch _ _ _ _ start_ end_ _ _ => dates_ok d start_ end_
+  | MBridgeReceive _ _ _ (Some bb) _ => dates_ok d (brb_start bb) (brb_end bb)
+  | _ => True
+  end.
+
+Lemma forallb_class_ids allowed :
+  forallb (fun c => nonempty c && validate_class_id c) allowed = true -> Forall (fun c => validate_class_id c = true) allowed.
+Proof.
+  intros Hf. apply Forall_forall. intros x Hx. rewrite forallb_forall in Hf. specialize (Hf x Hx).
+  apply andb_true_iff in Hf. tauto.
+Qed.
+
+Theorem handle_MV d e s m s' r evs :
+  MV d s -> validate_basic m = true -> msg_dates_ok d m -> handle e s m = LOk (s', r, evs) -> MV d s'.
+Proof.
+  intros Hmv Hv Hd Hh. destruct m; cbn [handle validate_basic msg_dates_ok] in *.
+  - (* CreateClass *) bdestr Hv. eapply h_create_class_MV; [exact Hmv| | |exact Hh]; assumption.
+  - (* CreateProject *) bdestr Hv. eapply h_create_project_MV; [exact Hmv| | |exact Hh]; assumption.
+  - (* CreateBatch *) bdestr Hv. eapply h_create_batch_MV; [exact Hmv| |exact Hd| |exact Hh]; [assumption|].
+    destruct otx; [assumption|exact I].
+  - (* MintBatchCredits *) bdestr Hv. eapply h_mint_MV; [exact Hmv| |exact Hh]. destruct otx; [assumption|exact I].
+  - (* SealBatch *) eapply h_seal_batch_MV; eassumption.
+  - (* Send *) eapply meq_MV; [eapply h_send_meq; exact Hh|exact Hmv].
+  - (* Retire *) eapply meq_MV; [eapply h_retire_meq; exact Hh|exact Hmv].
+  - (* Cancel *) eapply meq_MV; [eapply h_cancel_meq; exact Hh|exact Hmv].
+  - (* UpdateClassAdmin *) eapply h_update_class_admin_MV; eassumption.
+  - (* UpdateClassIssuers *) eapply h_update_class_issuers_MV; eassumption.
+  - (* UpdateClassMetadata *) bdestr Hv. eapply h_update_class_metadata_MV; [exact Hmv| |exact Hh]; assumption.
+  - (* UpdateProjectAdmin *) eapply h_update_project_admin_MV; eassumption.
+  - (* UpdateProjectMetadata *) bdestr Hv. eapply h_update_project_metadata_MV; [exact Hmv| |exact Hh]; assumption.
+  - (* UpdateBatchMetadata *) bdestr Hv. eapply h_update_batch_metadata_MV; [exact Hmv| |exact Hh]; assumption.
+  - (* Bridge *) eapply meq_MV; [eapply h_bridge_meq; exact Hh|exact Hmv].
+  - (* BridgeReceive *)
+    bdestr Hv. eapply h_bridge_receive_MV; [exact Hmv| | | |exact Hh].
+    + intros o Eo. subst otx. bdestr Hv0. assumption.
+    + intros pp Ep. subst pj. bdestr Hv2. split; assumption.
+    + intros bb Eb. subst ba. bdestr Hv1. split; [assumption|exact Hd].
+  - (* AddCreditType *) bdestr Hv. eapply h_add_credit_type_MV; [exact Hmv| | | | | |exact Hh]; assumption.
+  - (* SetClassCreatorAllowlist *) eapply meq_MV; [eapply h_set_allowlist_meq; exact Hh|exact Hmv].
+  - (* AddClassCreator *) eapply meq_MV; [eapply h_add_class_creator_meq; exact Hh|exact Hmv].
+  - (* RemoveClassCreator *) eapply meq_MV; [eapply h_remove_class_creator_meq; exact Hh|exact Hmv].
+  - (* UpdateClassFee *) eapply h_update_class_fee_MV; [exact Hmv| |exact Hh]. destruct fee; [exact Hv|exact I].
+  - (* AddAllowedBridgeChain *) eapply h_add_allowed_bridge_chain_MV; eassumption.
+  - (* RemoveAllowedBridgeChain *) eapply h_remove_allowed_bridge_chain_MV; eassumption.
+  - (* BurnRegen *) eapply meq_MV; [eapply h_burn_regen_meq; exact Hh|exact Hmv].
+  - (* basket Create *) bdestr Hv. eapply h_basket_create_MV; [exact Hmv| | | | |exact Hh]; try assumption.
+    apply forallb_class_ids. assumption.
+  - (* Put *) eapply meq_MV; [eapply h_put_meq; exact Hh|exact Hmv].
+  - (* Take *) eapply meq_MV; [eapply h_take_meq; exact Hh|exact Hmv].
+  - (* UpdateBasketFee *) eapply h_update_basket_fee_MV; [exact Hmv| |exact Hh]. destruct fee; [exact Hv|exact I].
+  - (* UpdateCurator *) eapply h_update_curator_MV; eassumption.
+  - (* UpdateDateCriteria *) bdestr Hv. eapply h_update_date_criteria_MV; [exact Hmv| |exact Hh]; assumption.
+  - (* Sell *) bdestr Hv. eapply h_sell_MV; [exact Hmv| |exact Hh]; assumption.
+  - (* UpdateSellOrders *) bdestr Hv. eapply h_update_sell_orders_MV; [exact Hmv| |exact Hh]; assumption.
+  - (* CancelSellOrder *) eapply h_cancel_sell_order_MV; eassumption.
+  - (* BuyDirect *) eapply h_buy_direct_MV; eassumption.
+  - (* AddAllowedDenom *) bdestr Hv. eapply h_add_allowed_denom_MV; [exact Hmv| | | |exact Hh]; assumption.
+  - (* RemoveAllowedDenom *) eapply h_remove_allowed_denom_MV; eassumption.
+  - (* GovSetFeeParams *) eapply meq_MV; [eapply h_gov_set_fee_params_meq; exact Hh|exact Hmv].
+  - (* GovSendFromFeePool *) eapply meq_MV; [eapply h_gov_send_from_fee_pool_meq; exact Hh|exact Hmv].
+  - (* bank Send *) destruct (blocked_addr to); [discriminate|]. lstep Hh as s1 H1. apply ret_inv in Hh. subst s'.
+    eapply meq_MV; [eapply send_coins_meq; exact H1|exact Hmv].
+  - (* unimplemented *) discriminate.
+Qed.
+
+(* ------------------------------------------------------------------ *)
+(* the theorems                                                        *)
+(* ------------------------------------------------------------------ *)
+
+(* message validator + handler => state validator, parametric in the date clause *)
+Theorem msg_vs_state d e s m s' r evs :
+  Inv_valid_d d s -> validate_basic m = true -> msg_dates_ok d m -> handle e s m = LOk (s', r, evs) ->
+  Inv_core s' -> small_state s' -> Inv_valid_d d s'.
+Proof.
+  intros Hv Hb Hd Hh Hc Hs. apply amounts_valid; [|exact Hc|exact Hs].
+  eapply handle_MV; [apply rows_MV; exact Hv | exact Hb | exact Hd | exact Hh].
+Qed.
+
+(* what remains of [msg_dates_ok] without the date clause: the two dates are representable
+   time.Time values (guaranteed by the decoding of the transaction) *)
+Definition wire_dates_ok (m : msg) : Prop := msg_dates_ok false m.
+
+(* PARTIAL (defect F4).  The full statement would be
+     Inv_valid s -> validate_basic m = true -> handle e s m = LOk (s', r, evs) -> ... -> Inv_valid s'
+   for every message; it is false for MsgCreateBatch / MsgBridgeReceive with start date = end date
+   ([C09_batch_dates_refuted]).  Proved here: the same with the batch date comparison removed
+   from the validator, for every message. *)
+Theorem msg_vs_state_partial e s m s' r evs :
+  Inv_valid_except_dates s -> validate_basic m = true -> wire_dates_ok m -> handle e s m = LOk (s', r, evs) ->
+  Inv_core s' -> small_state s' -> Inv_valid_except_dates s'.
+Proof.
+  intros Hv Hb Hd Hh Hc Hs. apply (proj1 (Inv_valid_d_false s')). apply (proj2 (Inv_valid_d_false s)) in Hv.
+  exact (msg_vs_state false e s m s' r evs Hv Hb Hd Hh Hc Hs).
+Qed.
+
+(* FULL validator, with the exact extra condition under which it holds: a batch-creating message
+   has end date strictly after start date.  For every other message the condition is [True]. *)
+Definition strict_dates_ok (m : msg) : Prop := msg_dates_ok true m.
+
+Theorem msg_vs_state_full e s m s' r evs :
+  Inv_valid s -> validate_basic m = true -> strict_dates_ok m -> handle e s m = LOk (s', r, evs) ->
+  Inv_core s' -> small_state s' -> Inv_valid s'.
+Proof. intros Hv Hb Hd Hh Hc Hs. exact (msg_vs_state true e s m s' r evs Hv Hb Hd Hh Hc Hs). Qed.
+
+Definition creates_batch (m : msg) : bool :=
+  match m with MCreateBatch _ _ _ _ _ _ _ _ | MBridgeReceive _ _ _ _ _ => true | _ => false end.
+
+(* the full statement for all the other messages, no side condition *)
+Theorem msg_vs_state_other e s m s' r evs :
+  creates_batch m = false ->
+  Inv_valid s -> validate_basic m = true -> handle e s m = LOk (s', r, evs) ->
+  Inv_core s' -> small_state s' -> Inv_valid s'.
+Proof.
+  intros Hcb Hv Hb Hh Hc Hs. eapply msg_vs_state_full; try eassumption.
+  destruct m; try exact I; discriminate Hcb.
+Qed.
+
+(* ---- whole histories: MV is preserved by every step, the amount hypotheses are needed for the
+   final state only ---- *)
+
+Lemma deliver_MV d e s m : MV d s -> msg_dates_ok d m -> MV d (deliver e s m).1.
+Proof.
+  intros Hmv Hd. unfold deliver. destruct (validate_basic m) eqn:Hb; [|exact Hmv].
+  destruct (handle e s m) as [[[s' r] evs]|err] eqn:Hh; [|exact Hmv]. cbn [fst]. eapply handle_MV; eassumption.
+Qed.
+
+Definition block_dates_ok (d : bool) (bl : block) : Prop := Forall (msg_dates_ok d) (blk_msgs bl).
+
+Lemma run_block_MV d a s bl s' : MV d s -> block_dates_ok d bl -> run_block a s bl = LOk s' -> MV d s'.
+Proof.
+  intros Hmv Hd. unfold run_block. intros Hh. lstep Hh as s1 H1. inversion Hh; subst. clear Hh.
+  apply (begin_block_MV d _ _ _ Hmv) in H1. clear Hmv. unfold block_dates_ok in Hd. revert s1 H1.
+  induction Hd as [|m l Hm Hl IH]; intros s1 H1; cbn [fold_left]; [exact H1|]. apply IH. apply deliver_MV; assumption.
+Qed.
+
+Theorem run_MV d a s h s' : MV d s -> Forall (block_dates_ok d) h -> run a s h = LOk s' -> MV d s'.
+Proof.
+  intros Hmv Hd Hr. unfold run in Hr.
+  eapply (lfold_pred (block_dates_ok d) (MV d)); [| exact Hd | exact Hmv | exact Hr].
+  intros s1 bl s2 Hb H1 H2. eapply run_block_MV; eassumption.
+Qed.
+
+(* every state reached from a validated genesis by any history of blocks validates, given the
+   ledger invariant and the size bound on that state *)
+Theorem reachable_valid d a s0 h s :
+  Inv_valid_d d s0 -> Forall (block_dates_ok d) h -> run a s0 h = LOk s ->
+  Inv_core s -> small_state s -> Inv_valid_d d s.
+Proof.
+  intros Hv Hd Hr Hc Hs. apply amounts_valid; [|exact Hc|exact Hs].
+  eapply run_MV; [apply rows_MV; exact Hv | exact Hd | exact Hr].
+Qed.
+
+Corollary reachable_valid_partial a s0 h s :
+  Inv_valid_except_dates s0 -> Forall (block_dates_ok false) h -> run a s0 h = LOk s ->
+  Inv_core s -> small_state s -> Inv_valid_except_dates s.
+Proof.
+  intros Hv Hd Hr Hc Hs. apply (proj1 (Inv_valid_d_false s)). apply (proj2 (Inv_valid_d_false s0)) in Hv.
+  exact (reachable_valid false a s0 h s Hv Hd Hr Hc Hs).
+Qed.
+
+(* ---- (d) the amount columns survive export + import: printing a stored amount and parsing it
+   back (what ExportGenesis / InitGenesis do with every amount column) gives the same decimal, so
+   the re-exported string is identical.  The rest of the ORM JSON codec is the identity in this
+   model (rows are the records themselves); the real codec is exercised by the `genesis_rt` items
+   of the harness. ---- *)
+Theorem amount_roundtrip x : stored_ok x -> small_dec x ->
+  match parse (to_string x) with Ok y => dnorm y = x | Err _ => False end.
+Proof.
+  intros (Hc & Hn & He1 & He2) Hs.
+  rewrite (parse_to_string x); [| exact Hc | unfold P in He1; clear - He1 He2; lia | exact Hs].
+  unfold dnorm. destruct (0 <? dexp x) eqn:E; [apply Z.ltb_lt in E; clear - E He2; lia|reflexivity].
+Qed.
+
+(* ------------------------------------------------------------------ *)
+(* refutation of the full statement (defect F4), by a concrete witness  *)
+(* ------------------------------------------------------------------ *)
+
+Require Regen.Cases.LedgerRun.
+
+Module Witness.
+  Import Regen.Cases.LedgerRun.
+
+  (* credit type C, class C01 (admin and issuer: account 0), project C01-001 *)
+  Definition s0 : state := build_state
+    [ XCreditType (b "C") (Some (b "carbon", b "ton", 6));
+      XClass 1%N (Some {| cl_id := b "C01"; cl_admin := 0%N; cl_metadata := b "m"; cl_ct := b "C" |});
+      XIssuer 1%N 0%N true;
+      XProject 1%N (Some {| pj_id := b "C01-001"; pj_admin := 0%N; pj_class_key := 1%N; pj_jurisdiction := b "US";
+                          pj_metadata := b "m"; pj_reference_id := [] |});
+      XClassSeq (b "C") (Some 2%N); XProjectSeq 1%N (Some 2%N); XSeq 0%N 1%N; XSeq 1%N 1%N ].
+
+  Definition e0 : env := {| e_time := {| secs := 1704067200; nanos := 0 |}; e_authority := addr_gov |}.
+  Definition day : ts := {| secs := 1577836800; nanos := 0 |}.        (* 2020-01-01 *)
+  Definition later : ts := {| secs := 1609459200; nanos := 0 |}.      (* 2021-01-01 *)
+  Definition iss : list issuance :=
+    [ {| is_recipient := 0%N; is_tradable := b "10"; is_retired := []; is_jurisdiction := []; is_reason := [] |} ].
+
+  (* MsgCreateBatch with start date = end date: accepted by ValidateBasic *)
+  Definition m_same : msg := MCreateBatch 0%N (b "C01-001") iss (b "meta") (Some day) (Some day) false None.
+  (* the same with end date after start date *)
+  Definition m_good : msg := MCreateBatch 0%N (b "C01-001") iss (b "meta") (Some day) (Some later) false None.
+
+  (* the state validates (rows, ORM checks, cross-table checks) and both messages pass ValidateBasic *)
+  Lemma s0_valid : validate_rows s0 = true /\ validate_cross s0 = true /\ import_ok s0 = true /\
+                   validate_basic m_same = true /\ validate_basic m_good = true.
+  Proof. vm_compute. repeat split; reflexivity. Qed.
+
+  (* start = end: the handler succeeds, and in the resulting state the row validators fail although
+     the validators without the date clause, the ORM checks and the cross-table checks all pass *)
+  Lemma after_same :
+    match handle e0 s0 m_same with
+    | LOk (s', _, _) => validate_rows s' = false /\ validate_rows_except_dates s' = true /\
+                        validate_cross s' = true /\ import_ok s' = true
+    | LErr _ => False
+    end.
+  Proof. vm_compute. repeat split; reflexivity. Qed.
+
+  (* end after start: the resulting state validates completely *)
+  Lemma after_good :
+    match handle e0 s0 m_good with
+    | LOk (s', _, _) => validate_rows s' = true /\ validate_cross s' = true /\ import_ok s' = true
+    | LErr _ => False
+    end.
+  Proof. vm_compute. repeat split; reflexivity. Qed.
+End Witness.
+
+(* The full "message validator => state validator" statement is FALSE on the current tree:
+   a valid state, a message accepted by ValidateBasic, a successful handler, and a resulting state
+   whose Batch row fails Batch.Validate (end date must be strictly after start date). *)
+Theorem C09_batch_dates_refuted :
+  exists e s m s' r evs, Inv_valid s /\ validate_basic m = true /\ handle e s m = LOk (s', r, evs) /\ validate_rows s' = false.
+Proof.
+  destruct Witness.s0_valid as (A1 & A2 & A3 & A4 & A5).
+  pose proof Witness.after_same as Hc.
+  destruct (handle Witness.e0 Witness.s0 Witness.m_same) as [[[s' r] evs]|err] eqn:Hh; [|contradiction].
+  destruct Hc as (B1 & B2 & B3 & B4). exists Witness.e0, Witness.s0, Witness.m_same, s', r, evs.
+  split; [exact A1|]. split; [exact A4|]. split; [exact Hh|exact B1].
+Qed.
+
+(* ... and it is only the date clause that fails: exported, that state fails ValidateGenesis, while
+   every other row check, the ORM import checks and the supply cross-check pass *)
+Theorem C09_batch_dates_refuted_genesis :
+  exists e s m s' r evs, validate_genesis s = true /\ validate_basic m = true /\ handle e s m = LOk (s', r, evs) /\
+    validate_genesis s' = false /\ validate_rows_except_dates s' = true /\ validate_cross s' = true /\ import_ok s' = true.
+Proof.
+  destruct Witness.s0_valid as (A1 & A2 & A3 & A4 & A5).
+  pose proof Witness.after_same as Hc.
+  destruct (handle Witness.e0 Witness.s0 Witness.m_same) as [[[s' r] evs]|err] eqn:Hh; [|contradiction].
+  destruct Hc as (B1 & B2 & B3 & B4). exists Witness.e0, Witness.s0, Witness.m_same, s', r, evs.
+  split; [unfold validate_genesis; rewrite A1, A2, A3; reflexivity|]. split; [exact A4|]. split; [exact Hh|].
+  split; [unfold validate_genesis; rewrite B1, B4; reflexivity|]. split; [exact B2|]. split; [exact B3|exact B4].
+Qed.
+
+(* the hypotheses of the theorems are satisfiable: the same batch with a later end date *)
+Example C09_good_batch_example :
+  exists e s m s' r evs, Inv_valid s /\ validate_basic m = true /\ strict_dates_ok m /\
+    handle e s m = LOk (s', r, evs) /\ validate_genesis s' = true.
+Proof.
+  destruct Witness.s0_valid as (A1 & A2 & A3 & A4 & A5).
+  pose proof Witness.after_good as Hc.
+  destruct (handle Witness.e0 Witness.s0 Witness.m_good) as [[[s' r] evs]|err] eqn:Hh; [|contradiction].
+  destruct Hc as (B1 & B2 & B3). exists Witness.e0, Witness.s0, Witness.m_good, s', r, evs.
+  split; [exact A1|]. split; [exact A5|]. split; [|split; [exact Hh|unfold validate_genesis; rewrite B1, B2, B3; reflexivity]].
+  cbn. split; [reflexivity|]. split; [reflexivity|]. intros _. reflexivity.
+Qed.
+
+(* ------------------------------------------------------------------ *)
+(* the data module (x/data/state_resolver.go, defect F6)               *)
+(* ------------------------------------------------------------------ *)
+
+Require Regen.Data.DataMsgs.
+
+Module DataC09.
+  Import Regen.Data.DataMsgs.
+
+  (* Resolver.Validate: m.Id == 0, m.Url == "", url.ParseRequestURI(m.Url) (net/url is not modelled:
+     DefineResolver's ValidateBasic makes the same call, the model carries its verdict as the
+     message's [url_ok] flag, so a stored URL has passed it), and
+     AccAddressFromBech32(AccAddress(m.Manager).String()), which rejects the EMPTY manager that
+     DefineResolver stores for a public resolver. *)
+  Definition valid_resolver_row (kv : N * resolver) : bool :=
+    nz kv.1 && nonempty kv.2.1 && (match kv.2.2 with Some _ => true | None => false end).
+  Definition resolvers_valid (s : dstate) : bool := forallb valid_resolver_row (resolvers s).
+
+  Definition t0 : ts := {| secs := 1704067200; nanos := 0 |}.
+  Definition m_public : dmsg := DDefineResolver 0%N (b "https://resolver.example/data") true true.
+
+  (* a public resolver, accepted by ValidateBasic and by the handler, leaves a row that
+     Resolver.Validate rejects: the exported data genesis fails ValidateGenesis *)
+  Theorem C09_public_resolver_refuted :
+    exists (H : bytes -> bytes) t s m s' r,
+      resolvers_valid s = true /\ validate_basic m = true /\ handle H t m s = BytesExt.Ok (s', r) /\
+      resolvers_valid s' = false.
+  Proof.
+    exists (fun x => x), t0, empty_dstate, m_public. do 2 eexists.
+    split; [reflexivity|]. split; [reflexivity|]. split; [vm_compute; reflexivity|]. vm_compute. reflexivity.
+  Qed.
+
+  (* PARTIAL: a private resolver (public = false) with a non-empty URL always leaves a valid row *)
+  Theorem define_private_resolver_valid_partial definer url s s' r :
+    resolvers_valid s = true -> nonempty url = true ->
+    handle_define_resolver definer url false s = BytesExt.Ok (s', r) -> resolvers_valid s' = true.
+  Proof.
+    intros Hv Hu. unfold handle_define_resolver. destruct (get_resolver _ s); [discriminate|].
+    destruct (resolver_taken _ _); [discriminate|]. intros Hh. inversion Hh; subst.
+    unfold resolvers_valid, set_resolvers, AList.ainsert. cbn [resolvers forallb].
+    unfold resolvers_valid in Hv. rewrite Hv. unfold valid_resolver_row. cbn [fst snd].
+    rewrite Hu. rewrite andb_true_r. apply andb_true_intro. split; [|reflexivity].
+    apply andb_true_intro. split; [|reflexivity]. unfold nz. apply negb_true_iff. apply N.eqb_neq. lia.
+  Qed.
+End DataC09.
